@@ -32,6 +32,8 @@ fn main() {
         "C06" => props::spectator::c06(),
         "C07" => props::drop::c07(),
         "C08" => props::malformed::c08(),
+        "C09" => props::desync::c09(),
+        "C10" => props::cutoff::c10(),
         "C12" => props::lifecycle_check::c12(),
         "C13" => props::synctest::c13(),
         "C14" => props::codec::c14(),
